@@ -199,6 +199,16 @@ struct W {
     if (auto* s = vk::pending_read()) vk::complete_read(s, nullptr, 0, ec);
     out_n = out_pos = 0;
   }
+  // ... in one of the ways a TCP connection dies: reset, orderly close by the peer (eof on read, broken pipe on write), abort
+  void drop_connection_any(int kind = 3) {
+    switch (kind == 3 ? (int)vk_choose(3) : kind) {
+      case 0: drop_connection(asio::error::connection_reset); break;
+      case 1: if (auto* s = vk::pending_write()) { vk::complete_write(s, 0, asio::error::broken_pipe); writes_completed++; }
+              if (auto* s = vk::pending_read()) vk::complete_read(s, nullptr, 0, asio::error::eof);
+              out_n = out_pos = 0; break;
+      default: drop_connection(asio::error::connection_aborted); break;
+    }
+  }
   // last packet of a type / all packets
   const pkt_rec* last_of(uint8_t type) const { for (int i = npk - 1; i >= 0; i--) if (pk[i].type == type) return &pk[i]; return nullptr; }
   int count_of(uint8_t type, int ep = -1) const { int n = 0; for (int i = 0; i < npk; i++) if (pk[i].type == type && (ep < 0 || pk[i].epoch == ep)) n++; return n; }
